@@ -179,7 +179,9 @@ fn gen_ordering_text(rng: &mut Rng, names: &[String]) -> String {
 
 fn cli_case(ctx: &Ctx, st: &mut Stats, text: &str, ordering: Option<String>, tag: &str) {
     // (1) table under the ordering, judged by name against the reference (order rule included)
-    let inv = Inv { text: text.into(), ordering: ordering.clone(), t: true, r: true, channel: 1, ..Default::default() };
+    // (every third case is also benchmarked: -b 2 / -b 3 repeat the evaluation, they do not change the answer)
+    let bench = match util::hash_str(text) % 3 { 0 => Some(2 + (text.len() % 2) as u32), _ => None };
+    let inv = Inv { text: text.into(), ordering: ordering.clone(), t: true, r: true, channel: 1, b: bench, ..Default::default() };
     st.evals += 1;
     let Some(rf) = reference_for(&inv) else {
         st.bump("outside_reference(skipped)");
@@ -227,7 +229,7 @@ fn cli_case(ctx: &Ctx, st: &mut Stats, text: &str, ordering: Option<String>, tag
     }
     // (2) round trip: feed the exported order back
     let table_text: String = so.lines().filter(|l| l.starts_with('|')).collect::<Vec<_>>().join("\n");
-    let back = Inv { text: text.into(), ordering: Some(parsed.exported.join("\n")), t: true, channel: 1, ..Default::default() };
+    let back = Inv { text: text.into(), ordering: Some(parsed.exported.join("\n")), t: true, channel: 1, b: bench.map(|b| b + 1), ..Default::default() };
     st.evals += 1;
     let out2 = invoke(ctx, &back, &format!("{}-b", tag));
     if out2.timed_out || out2.budget_exceeded() {
